@@ -84,17 +84,21 @@ SignRTOK(e) ==
 \* C08: a validating entry point fails whenever validation fails - emitting / attaching nothing - and
 \* otherwise behaves exactly like its non-validating sibling
 BuildGates == {"SetClaims", "EncodeCBOR", "EncodeJSON", "Sign"}
+\* "validation" is the claims-set's own Validate(): for the harness' extension profile X2 that is the profile-2 rules
+\* plus its own one (the timestamp claim, when present, is not negative)
 GatesOK(e) ==
-  LET o == e.pre IN
+  LET o == e.pre
+      extOK == ~e.ts.present \/ e.ts.v >= 0
+      ValidG(x) == Valid(x) /\ extOK IN
   /\ ~e.panicked /\ e.post = o
-  /\ e.vret.ok = Valid(o)
+  /\ e.vret.ok = ValidG(o)
   /\ \A g \in DOMAIN e.gates : LET r == e.gates[g] IN
         IF g \in BuildGates
-        THEN /\ (~Valid(o) => ~r.ok /\ r.none)
-             /\ (Valid(o) /\ r.sibOK => r.ok /\ r.same)
+        THEN /\ (~ValidG(o) => ~r.ok /\ r.none)
+             /\ (ValidG(o) /\ r.sibOK => r.ok /\ r.same)
         ELSE \* decode gates, fed with what the sibling encoder / signer produced
-             /\ (r.ok => r.sibOK /\ Valid(r.sibObj) /\ r.obj = r.sibObj /\ r.same)
-             /\ (r.sibOK /\ Valid(r.sibObj) => r.ok)
+             /\ (r.ok => r.sibOK /\ ValidG(r.sibObj) /\ r.obj = r.sibObj /\ r.same)
+             /\ (r.sibOK /\ ValidG(r.sibObj) => r.ok)
              /\ (~r.ok => r.none)
 \* C07, JSON side: the implementation registered under the declared profile (default profile 1), an unregistered
 \* value is an error, the outcome does not depend on the register's iteration order, a token is validated under the
